@@ -183,6 +183,35 @@ pub fn c07(ctx: &mut Ctx, tier: &str, seed: u64) {
             if sp(w.as_bytes()) != sw.as_path() || (!b.is_empty() && w.as_bytes() != sw.as_os_str().as_bytes()) {
                 ctx.fail("with_file_name-vs-std", None, format!("setfn u {} {}", hex(a), hex(b)), format!("impl \"{}\" std {:?}", lossy(w.as_bytes()), sw));
             }
+            // the other Unix path buffers track std as well: owned, UTF-8 (borrowed and owned), typed, UTF-8 typed,
+            // through `join`, `with_file_name` and `push` / `set_file_name` on a copy
+            if let (Ok(sa), Ok(sb)) = (std::str::from_utf8(a), std::str::from_utf8(b)) {
+                let mut ub = Utf8UnixPathBuf::from(sa);
+                ub.set_file_name(sb);
+                let mut up = Utf8UnixPathBuf::from(sa);
+                up.push(sb);
+                let mut tb = TypedPathBuf::from_unix(a);
+                tb.set_file_name(b);
+                let forms: Vec<(&str, Vec<u8>, &SPathBuf)> = vec![
+                    ("UnixPathBuf::join", UnixPathBuf::from(a.as_slice()).join(b).into_vec(), &sj),
+                    ("Utf8UnixPath::join", Utf8UnixPath::new(sa).join(sb).into_string().into_bytes(), &sj),
+                    ("Utf8UnixPathBuf::push", up.into_string().into_bytes(), &sj),
+                    ("Utf8TypedPath::join", Utf8TypedPath::unix(sa).join(sb).as_str().as_bytes().to_vec(), &sj),
+                    ("TypedPath::join", TypedPath::unix(a).join(b).as_bytes().to_vec(), &sj),
+                    ("UnixPathBuf::with_file_name", UnixPathBuf::from(a.as_slice()).with_file_name(b).into_vec(), &sw),
+                    ("Utf8UnixPath::with_file_name", Utf8UnixPath::new(sa).with_file_name(sb).into_string().into_bytes(), &sw),
+                    ("Utf8UnixPathBuf::with_file_name", Utf8UnixPathBuf::from(sa).with_file_name(sb).into_string().into_bytes(), &sw),
+                    ("Utf8UnixPathBuf::set_file_name", ub.into_string().into_bytes(), &sw),
+                    ("TypedPath::with_file_name", TypedPath::unix(a).with_file_name(b).as_bytes().to_vec(), &sw),
+                    ("TypedPathBuf::set_file_name", tb.as_bytes().to_vec(), &sw),
+                    ("Utf8TypedPath::with_file_name", Utf8TypedPath::unix(sa).with_file_name(sb).as_str().as_bytes().to_vec(), &sw),
+                ];
+                for (who, got, want) in forms {
+                    if sp(&got) != want.as_path() || (!b.is_empty() && got != want.as_os_str().as_bytes()) {
+                        ctx.fail("other-unix-buffers-vs-std", None, format!("setfn u {} {}", hex(a), hex(b)), format!("{}: \"{}\" std {:?}", who, lossy(&got), want));
+                    }
+                }
+            }
             let mut x = UnixPathBuf::from(a.as_slice());
             x.extend([b.as_slice(), a.as_slice()]);
             let mut y = SPathBuf::from(OsStr::from_bytes(a));
@@ -276,7 +305,7 @@ pub fn c08(ctx: &mut Ctx, tier: &str, seed: u64) {
     let args = dom_args(true, tier, seed);
     let keep = cross_keep(tier, bases.len(), args.len(), 300, 150);
     for (ai, a) in bases.iter().enumerate() {
-        let wa = well_formed(true, a);
+        let wa = well_formed_wide(true, a);
         let ca = spec_comps(true, a);
         let da = spec::win_decomp(a);
         for (bi, b) in args.iter().enumerate() {
@@ -296,7 +325,7 @@ pub fn c08(ctx: &mut Ctx, tier: &str, seed: u64) {
                     ctx.fail("bytes-follow-join-rules", None, rp.clone(), format!("impl \"{}\" rules \"{}\" ({})", lossy(&got), lossy(&want), rule));
                 }
             }
-            if !(wa && well_formed(true, b)) {
+            if !(wa && well_formed_wide(true, b)) {
                 continue;
             }
             let cg = spec::canon(&comps(true, &got));
@@ -558,7 +587,7 @@ pub fn c10(ctx: &mut Ctx, tier: &str, seed: u64) {
                 // "up to the normalisation that joining onto a verbatim prefix applies"
                 let verb = win && spec::win_decomp(q).any_verbatim();
                 let ok = if verb {
-                    spec::canon(&comps(win, &j)) == spec::join_rules_verbatim(&spec::canon(&cq), &cp[cq.len()..].to_vec())
+                    spec::canon(&comps(win, &j)) == spec::join_rules_verbatim(&spec::canon(&cq), &cp.get(cq.len()..).unwrap_or(&[]).to_vec())
                 } else {
                     spec::canon(&comps(win, &j)) == spec::canon(&cp) || path_eq(win, &j, p)
                 };
@@ -576,8 +605,8 @@ pub fn c10(ctx: &mut Ctx, tier: &str, seed: u64) {
             }
         }
         // join then starts_with / strip_prefix
-        let bases: Vec<Vec<u8>> = gen::bases(win, tier, seed).into_iter().filter(|b| well_formed(win, b)).collect();
-        let args: Vec<Vec<u8>> = dom_args(win, tier, seed).into_iter().filter(|b| well_formed(win, b)).take(if t { 400 } else { 60 }).collect();
+        let bases: Vec<Vec<u8>> = gen::bases(win, tier, seed).into_iter().filter(|b| well_formed_wide(win, b)).collect();
+        let args: Vec<Vec<u8>> = dom_args(win, tier, seed).into_iter().filter(|b| well_formed_wide(win, b)).take(if t { 400 } else { 60 }).collect();
         for a in &bases {
             if win && spec::win_decomp(a).any_verbatim() {
                 continue;
